@@ -1,17 +1,8 @@
 INIT Init
 NEXT Next
 CONSTANTS
-  Signs <- Both
-  Sigs <- SigUnc
-  Exps <- ExpUncT
-  Precs = {}
-  UncSigs <- USig
-  UncOffs = {0, 1, 2, 3, 4, 5, 6, 7, 8}
-  UncPrecs = {1, 2, 3, 4}
-  Units = {}
-  Convs = {}
-  UncSrcs = {"arg"}
-  RomanMax = 0
+  SliceTable <- AllSlices
+  SliceNames = {"uncert_t"}
 INVARIANT TypeOK
 INVARIANT RoundCarries
 INVARIANT ModelNumberDenotes
